@@ -441,4 +441,14 @@ def run (qs : List Query) (evs : List Ty) : List (Nat × Nat × Nat) :=
 
 end EngineImpl
 
+/-! ## Reading the reports -/
+
+/-- value reported by `flush()` for query `q` (absent = 0) -/
+def flushed (r : List (Nat × Nat × Nat) × List (Nat × Nat)) (q : Nat) : Nat :=
+  ((r.2.find? (·.1 == q)).map (·.2)).getD 0
+
+/-- last value the engine reported for stream `i` (none = 0) -/
+def lastReported (r : List (Nat × Nat × Nat)) (i : Nat) : Nat :=
+  (((r.filter (·.2.1 == i)).getLast?).map (·.2.2)).getD 0
+
 end Varpulis.Trend
